@@ -339,7 +339,11 @@ func ExtensionDoc(e *Extension, plain bool) Map {
 		body = Map{}
 	}
 	var m Map
-	m.Add(e.Kind, body)
+	if e.NullBody {
+		m.Add(e.Kind, nil)
+	} else {
+		m.Add(e.Kind, body)
+	}
 	if e.Optional != nil {
 		m.Add("optional", *e.Optional)
 	}
